@@ -15,8 +15,8 @@ import numpy as np
 DELTA = 0.5
 
 
-def _on_intervals(total, dash, offset):
-    """arclength on-intervals [(s0, s1)] within [0,total]"""
+def _on_intervals(total, dash, offset, zeros=None):
+    """arclength on-intervals [(s0, s1)] within [0,total]; arclengths of zero-length dashes are appended to `zeros`"""
     if not dash or sum(dash) <= 0 or any(d < 0 for d in dash):
         return [(0.0, total)], False
     period = sum(dash)
@@ -32,6 +32,8 @@ def _on_intervals(total, dash, offset):
             a, b = max(s, 0.0), min(s + d, total)
             if b > a:
                 out.append((a, b))
+        elif k % 2 == 0 and d == 0 and zeros is not None and 0.0 <= s <= total:
+            zeros.append(s)
         s += d
         k += 1
         if k > 100000:
@@ -115,7 +117,22 @@ def classify(subpaths, style, pts, delta=DELTA):
         for i in range(len(P) - 1):
             cum.append(cum[-1] + math.hypot(P[i + 1][0] - P[i][0], P[i + 1][1] - P[i][1]))
         total = cum[-1]
-        ivs, dashed = _on_intervals(total, dash, offset)
+        zeros = []
+        ivs, dashed = _on_intervals(total, dash, offset, zeros)
+        # merge on-intervals separated by a zero-length gap ("5 0 5 10"): no dash end there
+        merged = []
+        for iv in ivs:
+            if merged and abs(merged[-1][1] - iv[0]) < 1e-12:
+                merged[-1] = (merged[-1][0], iv[1])
+            else:
+                merged.append(iv)
+        ivs = merged
+        if cap != "butt":
+            # a zero-length dash is drawn as a dot (round) / square by its caps: whatever lies within reach of it is undecided
+            for sz in zeros:
+                E, _T = _point_at(P, cum, min(max(sz, 0.0), total))
+                if E is not None:
+                    out_pieces.append((tuple(E), tuple(E)))
         for s0, s1 in ivs:
             whole_closed = closed and not dashed
             # outside test pieces: grown
